@@ -156,6 +156,15 @@ LOOP_INVARIANTS = {
                 "self._data.groupFluxes.n == gi * kmax * nblck + k * nblck + _i"],
         "havoc": ["self._data.groupFluxes.ok", "self._data.groupFluxes.g", "self._data.groupFluxes.k", "self._data.groupFluxes.b", "self._data.groupFluxes.n"],
     },
+    # FIXSRC.readWrite: for g in range(ng) / for z in range(nz)   (monitor = FixsrcProbe below)
+    ("armi.nuclearDataIO.cccc.fixsrc:FIXSRC.readWrite", 1): {
+        "inv": ["0 <= _i", "self.ok", "self.g == _i", "self.z == 0", "self.n == _i * nz", "self.head == 2"],
+        "havoc": ["self.ok", "self.g", "self.z", "self.n"],
+    },
+    ("armi.nuclearDataIO.cccc.fixsrc:FIXSRC.readWrite", 2): {
+        "inv": ["0 <= _i", "self.ok", "self.g == (g if _i < nz else g + 1)", "self.z == (_i if _i < nz else 0)", "self.n == g * nz + _i", "self.head == 2"],
+        "havoc": ["self.ok", "self.g", "self.z", "self.n"],
+    },
 }
 
 
@@ -319,3 +328,185 @@ def rzflux_file_round_trip(nz: int, ng: int, nb: int, x: float, itps: int, f0: f
     for g in range(ng):
         for z in range(nz):
             assert eq(back.groupFluxes[g, z], vals[g][z]), "zone flux read back"
+
+
+# ----------------------------------------------------------------------------- FIXSRC: records = groups x planes; whole file
+FIXSRC = repo("armi.nuclearDataIO.cccc.fixsrc:FIXSRC")
+
+
+class FixsrcProbe(FIXSRC):
+    """the real FIXSRC.readWrite; the record bodies are replaced by a monitor: (g, z) = the (group, plane) the next 3D
+    record must carry, n = 3D records so far, ok = every one so far was the expected one, head = header records"""
+
+    def _rwFileID(self):
+        self.ok = self.ok and self.head == 0 and self.n == 0
+        self.head = self.head + 1
+
+    def _rw1DRecord(self):
+        self.ok = self.ok and self.head == 1 and self.n == 0
+        self.head = self.head + 1
+
+    def _rw3DRecord(self, g, z):
+        self.ok = self.ok and self.head == 2 and g == self.g and z == self.z
+        self.n = self.n + 1
+        if self.z + 1 < self.fc["nintk"]:
+            self.z = self.z + 1
+        else:
+            self.z = 0
+            self.g = self.g + 1
+
+
+@lemma(gen={"ng": (1, 4), "nz": (1, 4)})
+def fixsrc_records_are_groups_x_planes(ng: int, nz: int, reading: bool):
+    """for EVERY header (NGROUP, NINTK >= 1; loop invariants): FIXSRC.readWrite handles the file identification, then the
+    1D record, then exactly one 3D record per (group, plane) in the order groups (outer) x planes (inner)"""
+    assume(ng >= 1 and nz >= 1)
+    s = new(FixsrcProbe, fc={"ngroup": ng, "nintk": nz}, _fileMode="rb" if reading else "wb", _fileName="FIXSRC",
+            ok=True, g=0, z=0, n=0, head=0)
+    s.readWrite()
+    assert s.ok, "identification, 1D, then every 3D record was the expected (group, plane)"
+    assert s.head == 2
+    assert s.g == ng and s.z == 0, "all groups x planes visited, none twice"
+    assert s.n == ng * nz
+
+
+@lemma(gen={"ni": (1, 2), "nj": (1, 2), "nz": (1, 2), "ng": (1, 2)})
+def fixsrc_file_round_trip(ni: int, nj: int, nz: int, ng: int):
+    """a whole FIXSRC file written by the real FIXSRC (constructor, readWrite, _rwFileID, _rw1DRecord, _rw3DRecord,
+    real binary records) and read back into a zero array of the same shape: the 13 file-control integers and every
+    source value are read back; 2 + NGROUP x NINTK records, each 3D record holding NINTI x NINTJ doubles.
+    Shapes 1..2 in each of the four dimensions (16); source values symbolic."""
+    ni, nj, nz, ng = choose(ni, 1, 2), choose(nj, 1, 2), choose(nz, 1, 2), choose(ng, 1, 2)
+    vals = [[[[sym_real("q_%d_%d_%d_%d" % (i, j, z, g)) for g in range(ng)] for z in range(nz)] for j in range(nj)] for i in range(ni)]
+    st = memstream()
+    w = FIXSRC("FIXSRC", "wb", np.array(vals))
+    w._stream = st
+    w.readWrite()
+    assert st.nwrites() == 3 * (2 + ng * nz)
+    for r in range(ng * nz):
+        (count,) = struct.unpack("i", st.written(3 * (2 + r)))
+        assert count == 8 * ni * nj, "each 3D record holds one plane of one group"
+    st.seek(0)
+    r = FIXSRC("FIXSRC", "rb", np.zeros((ni, nj, nz, ng)))
+    r._stream = st
+    r.readWrite()
+    assert r.label == w.label.rstrip() and r.fileId == 1
+    for key in w.fc:
+        assert r.fc[key] == w.fc[key], "file control entry read back"
+    assert r.fc["ngroup"] == ng and r.fc["ninti"] == ni and r.fc["nintj"] == nj and r.fc["nintk"] == nz
+    for i in range(ni):
+        for j in range(nj):
+            for z in range(nz):
+                for g in range(ng):
+                    assert eq(r.fixSrc[i, j, z, g], vals[i][j][z][g]), "source value read back"
+
+
+# ----------------------------------------------------------------------------- LABELS
+LabelsStream = repo("armi.nuclearDataIO.cccc.labels:LabelsStream")
+LabelsData = repo("armi.nuclearDataIO.cccc.labels:LabelsData")
+labels = repo("armi.nuclearDataIO.cccc.labels")
+
+
+class LabelsProbe(LabelsStream):
+    """the real LabelsStream.readWrite with the bodies of the implemented records (file id, 1D..5D) replaced by a
+    trace; the control-rod and burnup records (6D..11D) stay the real ones (they raise NotImplementedError)"""
+
+    def _rwFileID(self):
+        self.trace.append("ID")
+
+    def _rw1DRecord(self):
+        self.trace.append("1D")
+
+    def _rw2DRecord(self):
+        self.trace.append("2D")
+
+    def _rw3DRecord(self):
+        self.trace.append("3D")
+
+    def _rw4DRecord(self):
+        self.trace.append("4D")
+
+    def _rw5DRecord(self):
+        self.trace.append("5D")
+
+
+@lemma(gen={"nhts1": (0, 2), "nhts2": (0, 2), "nsets": (0, 3), "nalias": (0, 2), "nbanks": (0, 1), "nvary": (0, 1), "maxbrn": (0, 1), "maxord": (0, 1)})
+def labels_records_follow_the_header(nhts1: int, nhts2: int, nsets: int, nalias: int, nbanks: int, nvary: int, maxbrn: int, maxord: int):
+    """LABELS file structure (table in labels.py): identification, specifications and label/area data always; the
+    finite-geometry transverse distances iff NHTS1 > 0 or NHTS2 > 0; the nuclide set labels iff NSETS > 1; the alias
+    zone labels iff NALIAS > 0 - in that order, each at most once; a header that announces control-rod or burnup
+    dependent records (which armi cannot handle) is refused (NotImplementedError), not silently shortened."""
+    assume(nhts1 >= 0 and nhts2 >= 0 and nsets >= 0 and nalias >= 0 and nbanks >= 0 and nvary >= 0 and maxbrn >= 0 and maxord >= 0)
+    meta = {"numHalfHeightsDirection1": nhts1, "numHalfHeightsDirection2": nhts2, "numNuclideSets": nsets, "numZoneAliases": nalias,
+            "numControlRodBanks": nbanks, "numBurnupDependentIsotopes": nvary, "maxBurnupDependentGroups": maxbrn, "maxBurnupPolynomialOrder": maxord}
+    s = new(LabelsProbe, _metadata=meta, trace=[], _fileMode="wb", _fileName="LABELS")
+    try:
+        s.readWrite()
+        refused = False
+    except NotImplementedError:
+        refused = True
+    assert refused == (nbanks > 0 or nvary > 0 or maxbrn > 0 or maxord > 0), "announced but unsupported records are refused"
+    expected = ["ID", "1D", "2D"]
+    if nhts1 > 0 or nhts2 > 0:
+        expected.append("3D")
+    if nsets > 1:
+        expected.append("4D")
+    if nalias > 0:
+        expected.append("5D")
+    assert s.trace == expected, "records present exactly as the header says, in file order"
+
+
+@lemma(gen={"nz": (1, 2), "nh1": (0, 2), "nh2": (0, 1), "nsets": (1, 2), "nalias": (0, 1), "h0": F32, "h1": F32, "e0": F32, "e1": F32, "g0": F32, "x0": F32})
+def labels_file_round_trip(nz: int, nh1: int, nh2: int, nsets: int, nalias: int, h0: float, h1: float, e0: float, e1: float, g0: float, x0: float):
+    """a whole LABELS file (identification, 27 specification integers, label and area data, and the optional 3D, 4D, 5D
+    records as announced) through the real LabelsStream.readWrite and real binary records: everything is read back.
+    Shapes: 1..2 zones, 0..2 / 0..1 half heights, 1..2 nuclide sets, 0..1 aliases (48 shapes); reals symbolic."""
+    nz, nh1, nh2 = choose(nz, 1, 2), choose(nh1, 0, 2), choose(nh2, 0, 1)
+    nsets, nalias = choose(nsets, 1, 2), choose(nalias, 0, 1)
+    data = LabelsData()
+    for key in labels.FILE_SPEC_1D_KEYS:
+        data.metadata[key] = 0
+    header = {"numZones": nz, "numRegions": 2, "numAreas": 1, "numRegionAreaAssignments": 1, "numHalfHeightsDirection1": nh1,
+              "numHalfHeightsDirection2": nh2, "numNuclideSets": nsets, "numZoneAliases": nalias, "numTrianglesPerHex": 6, "modelDimensions": 3}
+    for key in header:
+        data.metadata[key] = header[key]
+    ident = {"hname": "LABELS", "huse": "ARMI", "huse2": "", "version": 1}
+    for key in ident:
+        data.metadata[key] = ident[key]
+    data.metadata["dummy"] = [0, 0]
+    data.zoneLabels = ["ZONE1", "Z2"][:nz]
+    data.regionLabels = ["REG001", "REG002"]
+    data.areaLabels = ["CORE"]
+    data.regionAreaAssignments = ["REG001"]
+    data.halfHeightsDirection1 = [h0, h1][:nh1]
+    data.extrapolationDistance1 = [e0, e1][:nh1]
+    data.halfHeightsDirection2 = [g0][:nh2]
+    data.extrapolationDistance2 = [x0][:nh2]
+    data.nuclideSetLabels = ["SETA", "SETB"][:nsets]
+    data.aliasZoneLabels = ["ALIAS1"][:nalias]
+    zl, rl, al, ra, ns, az = (list(data.zoneLabels), list(data.regionLabels), list(data.areaLabels), list(data.regionAreaAssignments),
+                              list(data.nuclideSetLabels), list(data.aliasZoneLabels))  # (writing replaces the lists by arrays)
+    st = memstream()
+    stream(LabelsStream, "LABELS", "wb", st, data).readWrite()
+    nrec = 3 + (1 if nh1 + nh2 > 0 else 0) + (1 if nsets > 1 else 0) + (1 if nalias > 0 else 0)
+    assert st.nwrites() == 3 * nrec, "records present exactly as announced"
+    st.seek(0)
+    back = LabelsData()
+    stream(LabelsStream, "LABELS", "rb", st, back).readWrite()
+    for key in labels.FILE_SPEC_1D_KEYS:
+        assert back.metadata[key] == data.metadata[key], "specification read back"
+    for key in ident:
+        assert back.metadata[key] == ident[key]
+    assert list(back.zoneLabels) == zl and list(back.regionLabels) == rl
+    assert list(back.areaLabels) == al and list(back.regionAreaAssignments) == ra
+    if nh1 + nh2 > 0:
+        assert len(back.halfHeightsDirection1) == nh1 and len(back.extrapolationDistance1) == nh1
+        assert len(back.halfHeightsDirection2) == nh2 and len(back.extrapolationDistance2) == nh2
+        for k in range(nh1):
+            assert eq(back.halfHeightsDirection1[k], [h0, h1][k]) and eq(back.extrapolationDistance1[k], [e0, e1][k])
+        for k in range(nh2):
+            assert eq(back.halfHeightsDirection2[k], g0) and eq(back.extrapolationDistance2[k], x0)
+    if nsets > 1:
+        assert list(back.nuclideSetLabels) == ns
+    if nalias > 0:
+        assert list(back.aliasZoneLabels) == az
